@@ -2063,6 +2063,115 @@ def translator_tie(ctx):
     return text
 
 
+def _ieval(e, d, skip):
+    e = e.strip()
+    while e.startswith("(") and e.endswith(")"):
+        depth, ok = 0, True
+        for i, ch in enumerate(e):
+            depth += ch == "("
+            depth -= ch == ")"
+            if depth == 0 and i < len(e) - 1:
+                ok = False
+                break
+        if not ok:
+            break
+        e = e[1:-1].strip()
+    if e == "ETarget":
+        return d
+    if e == "ESkip":
+        return skip
+    if e.startswith("EConst"):
+        return int(e.split()[1])
+    if e.startswith("EAdd"):
+        rest, parts, depth, cur = e[4:].strip(), [], 0, ""
+        for ch in rest:
+            if ch == "(":
+                depth += 1
+            elif ch == ")":
+                depth -= 1
+            if ch == " " and depth == 0 and cur:
+                parts.append(cur)
+                cur = ""
+            else:
+                cur += ch
+        if cur:
+            parts.append(cur)
+        return sum(_ieval(x, d, skip) for x in parts)
+    raise ValueError(e)
+
+
+def _eval_ops(ops, n, d, skip):
+    """Mat_EigSelect.apply_op / eval_ops on the translator's own strings: view (offset, length) or None"""
+    off, ln = 0, n
+    for op in ops:
+        name, _, arg = op.partition(" ")
+        if name == "BRight":
+            k = _ieval(arg, d, skip)
+            if k > ln:
+                return None
+            off, ln = off + (ln - k), k
+        elif name == "BLeft":
+            k = _ieval(arg, d, skip)
+            if k > ln:
+                return None
+            ln = k
+        elif name == "BSegment":
+            depth, cut = 0, None
+            for i, ch in enumerate(arg):
+                depth += ch == "("
+                depth -= ch == ")"
+                if ch == " " and depth == 0:
+                    cut = i
+                    break
+            a, b = (arg[:cut], arg[cut + 1:]) if cut is not None else (arg, "")
+            a, b = _ieval(a, d, skip), _ieval(b, d, skip)
+            if a + b > ln:
+                return None
+            off, ln = off + a, b
+        else:
+            raise ValueError(op)
+    return off, ln
+
+
+def model_uses_our_table(ctx, mexe, repo):
+    """the extracted selectors (driver command SEL) must be the ones of the table parsed from the tree under check:
+    coq/gen/EigSelect.v is shared with other checks that regenerate it from THEIR trees; a foreign table compiled
+    into our extraction would be reported as a model / implementation mismatch of OUR tree.  True / False / None
+    (cannot tell: do not loop)."""
+    try:
+        sys.path.insert(0, os.path.join(ctx.verif, "translate"))
+        import t_eig
+        tab = t_eig.parse(repo)
+        skips = dict(tab["skips"])
+
+        def site(fn, largest):
+            for b in tab["branches"]:
+                if b["fn"] == fn and b["largest"] == largest:
+                    return b
+            return None
+        le, dm = site("generalized_eigendecomposition_impl_dense", False), site("eigendecomposition_impl_dense", True)
+        if le is None or dm is None or le["base"] != "BaseN" or dm["base"] != "BaseN":
+            return None
+        show = lambda v: "none" if v is None else "%d:%d" % v
+        lines, want = [], []
+        for n, d in ((9, 3), (6, 5), (7, 1), (4, 4)):
+            lines.append("SEL %d %d" % (n, d))
+            sk_le, sk_dm = skips.get("SmallestEigenvalues"), skips.get("LargestEigenvalues")
+            if sk_le is None or sk_dm is None:
+                return None
+            want.append("SEL %s %s %s" % (show(_eval_ops(le["cols"], n, d, sk_le)),
+                                          show(_eval_ops(dm["cols"], n, d + 1, sk_dm)),
+                                          show(_eval_ops(dm["vals"], n, d + 1, sk_dm))))
+        got = run_model(ctx, mexe, lines)
+        # a selector that leaves the matrix makes the OTHER selector of the same pair print none as well
+        ok = all(g.split()[1] == w.split()[1] and
+                 (g.split()[2:] == w.split()[2:] or "none" in g.split()[2:] and "none" in w.split()[2:])
+                 for g, w in zip(got, want))
+        return ok
+    except Exception:
+        return None
+
+
 def table_still_ours(ctx, text):
     try:
         return open(os.path.join(ctx.verif, "coq", "gen", "EigSelect.v")).read() == text
@@ -2113,10 +2222,10 @@ def build_all(ctx):
                 if attempt == 2 or text is None or table_still_ours(ctx, text):
                     raise
                 continue
-            if text is None or table_still_ours(ctx, text):
+            if text is None or (table_still_ours(ctx, text) and model_uses_our_table(ctx, mexe, ctx.repo) is not False):
                 break
-            ctx.note("coq/gen/EigSelect.v was rewritten by a concurrent check during the build; rebuilding (attempt %d)"
-                     % (attempt + 2))
+            ctx.note("coq/gen/EigSelect.v was rewritten by a concurrent check during the build (or the extracted "
+                     "selectors are those of a foreign table); rebuilding (attempt %d)" % (attempt + 2))
     finally:
         for th in ths:
             th.join()
